@@ -181,3 +181,27 @@ impl Ctx {
 pub fn catch<T>(f: impl FnOnce() -> T) -> Option<T> {
     std::panic::catch_unwind(std::panic::AssertUnwindSafe(f)).ok()
 }
+
+/// Structured wrong variants of a value (each differs from `v`): differences that cancel under an
+/// XOR fold, under an additive fold, byte permutations, differences confined to the last bytes (lost
+/// by a chunked comparison) or to the first byte.  Comparisons written by hand fail exactly on these.
+pub fn near_misses(rng: &mut Rng, v: &[u8]) -> Vec<(Vec<u8>, &'static str)> {
+    let n = v.len();
+    let mut out: Vec<(Vec<u8>, &'static str)> = Vec::new();
+    if n < 2 { return out; }
+    let (i, j) = { let i = rng.below(n as u64) as usize; let mut j = rng.below(n as u64 - 1) as usize; if j >= i { j += 1; } (i, j) };
+    let mask = 1 + rng.below(255) as u8;
+    let mut a = v.to_vec(); a[i] ^= mask; a[j] ^= mask; out.push((a, "two bytes changed by the same XOR mask"));
+    let mut a = v.to_vec(); a[i] = a[i].wrapping_add(mask); a[j] = a[j].wrapping_sub(mask); out.push((a, "two bytes changed by +d and -d"));
+    let mut a = v.to_vec(); a[n - 1] ^= mask; a[n - 2] ^= mask; out.push((a, "last two bytes changed by the same XOR mask"));
+    if let Some((p, q)) = (0..n).flat_map(|p| (p + 1..n).map(move |q| (p, q))).find(|(p, q)| v[*p] != v[*q]) {
+        let mut a = v.to_vec(); a.swap(p, q); out.push((a, "two unequal bytes swapped"));
+    }
+    let mut a = v.to_vec(); a[n - 1] ^= mask; out.push((a, "only the last byte differs"));
+    let mut a = v.to_vec(); for k in n - (n % 8).max(1).min(n)..n { a[k] ^= 1 + rng.below(255) as u8; } out.push((a, "only the bytes after the last multiple of 8 differ"));
+    let mut a = v.to_vec(); a[0] ^= mask; out.push((a, "only the first byte differs"));
+    let mut a = v.to_vec(); for b in a.iter_mut() { *b ^= mask; } if n % 2 == 0 { out.push((a, "every byte changed by the same XOR mask (even length)")); } else { out.push((a, "every byte changed by the same XOR mask")); }
+    let mut a = v.to_vec(); a.reverse(); if a != v { out.push((a, "bytes reversed")); }
+    out.retain(|(a, _)| a != v);
+    out
+}
